@@ -301,7 +301,7 @@ _language_regexp = re.compile(r'''
 (?:  _  ( [A-Z]{2,} ) )?
 (?: [.] ( [a-zA-Z0-9+-]+ ) )?
 (?:  @  ( [a-z]+) )?
-$''', re.VERBOSE)
+\Z''', re.VERBOSE)
 
 def parse_language(s):
     match = _language_regexp.match(s)
